@@ -280,6 +280,9 @@ class Builder:
         conn = self.nconn()
         base = len([1 for i, _ in self.sim.app_requests if i == 0])
         ids = self.n() + 100
+        if self.id > 40 and self.rng.random() < 0.4:
+            # hop-by-hop ids belong to a connection: the probing peer may use the ones of the last request again
+            ids = self.id - 1 - 1 - 10
         # the peer whose connections were all cut comes back itself, otherwise another peer connects
         peer = "peer1.x" if not self.open1 and self.rng.random() < 0.7 else "peer3.x"
         self.evs.append(f"mark probe:{conn}:{base}:{self.limit}:{self.kind}:{ids}:{peer}")
@@ -322,6 +325,16 @@ def corpus() -> list[str]:
         for i in range(limit):
             evs += ["rx 1 " + nodegen.ccr(510 + 2 * i, 511 + 2 * i), "handler 0"]
         evs += ["eof 1", f"mark probe:2:{limit}:{limit}:t:700"] + probe_events(2, limit, limit, "t", 700)
+        out.append(cfg + " | " + " | ".join(evs))
+        # … and the peer comes back itself, numbering its requests from the same values again
+        evs = ["start fail", "acc", f"rx 1 {cer1}", "outcome 0 none"]
+        for i in range(limit):
+            evs += ["rx 1 " + nodegen.ccr(510 + 2 * i, 511 + 2 * i), "handler 0"]
+        evs += ["eof 1", f"mark probe:2:{limit}:{limit}:t:500:peer1.x"] + probe_events(2, limit, limit, "t", 500, "peer1.x")
+        out.append(cfg + " | " + " | ".join(evs))
+        # a slow handler still busy when the connection is lost; the peer comes back with the same numbering
+        evs = ["start fail", "acc", f"rx 1 {cer1}", "rx 1 " + nodegen.ccr(510, 511), "eof 1", "handler 0",
+               f"mark probe:2:1:{limit}:t:500:peer1.x"] + probe_events(2, 1, limit, "t", 500, "peer1.x")
         out.append(cfg + " | " + " | ".join(evs))
         # too-busy answer that cannot be routed: connection lost with requests still queued
         evs = ["start fail", "acc", f"rx 1 {cer1}", "rx 1 " + " ".join(nodegen.ccr(520 + 2 * i, 521 + 2 * i) for i in range(limit)),
